@@ -91,9 +91,13 @@ def build_harness(cfg):
     hdir = HARNESS_DIR
     if REPO != "/repo":
         hdir = os.path.join(CACHE, "harness-alt")
-        sh("rm -rf %s && mkdir -p %s && cp -r %s/src %s/Cargo.toml %s/.cargo %s/" % (hdir, hdir, HARNESS_DIR, HARNESS_DIR, HARNESS_DIR, hdir))
-        t = open(os.path.join(hdir, "Cargo.toml")).read().replace('path = "/repo"', 'path = "%s"' % REPO)
-        open(os.path.join(hdir, "Cargo.toml"), "w").write(t)
+        os.makedirs(hdir, exist_ok=True)
+        # keep mtimes (rsync -a) so that cargo only rebuilds what changed
+        sh("rsync -a --exclude target --exclude Cargo.toml --exclude Cargo.lock %s/ %s/" % (HARNESS_DIR, hdir))
+        t = open(os.path.join(HARNESS_DIR, "Cargo.toml")).read().replace('path = "/repo"', 'path = "%s"' % REPO)
+        dst = os.path.join(hdir, "Cargo.toml")
+        if not os.path.exists(dst) or open(dst).read() != t:
+            open(dst, "w").write(t)
     lock_src = os.path.join(REPO, "Cargo.lock")
     lock_dst = os.path.join(hdir, "Cargo.lock")
     if not os.path.exists(lock_dst):
